@@ -311,19 +311,20 @@ Section Search.
     end.
 End Search.
 
+Definition search_fuel : nat := 64.   (* levels granted to the labelled search *)
+
 (* One group = all configurations with the same labelled state space.  [base] is the state the
    search starts from, [inits] the initial labelled states of the group's configurations, each with
    a path leading to [base]. *)
 Definition check_group {X : Type} (enc : X -> positive) (eqb : X -> X -> bool)
            (ev : X -> list (event * X)) (pi_of : params (T:=Q) -> X -> state)
            (nl nd n : nat) (base : X) (inits : list (X * list X)) (Ps : list (params (T:=Q))) : bool :=
-  let step := targets_of ev in
-  match reachable_list enc step 4096 base with
+  match reachable_list enc (targets_of ev) search_fuel base with
   | None => false
   | Some L =>
       let M := index enc L in
-      closed_b enc eqb step M L &&
-      forallb (fun ip => memM enc eqb M (fst ip) && path_ok eqb step (fst ip) (snd ip)
+      closed_b enc eqb (targets_of ev) M L &&
+      forallb (fun ip => memM enc eqb M (fst ip) && path_ok eqb (targets_of ev) (fst ip) (snd ip)
                          && eqb (last (snd ip) (fst ip)) base) inits &&
       forallb (fun P =>
         match get_transitions OpsQ P lump_fuel nl nd n with
